@@ -57,6 +57,27 @@ def run(tier, v):
                     "profile %s: invariant %s of TraceProfile fails (n=%d left0=%d err=%r)" % (
                         {k: row[k] for k in ("kind", "from_m", "to_m", "step", "times")}, inv, row["n"], row["left0"], row["err"]),
                     replay_obj={"invariant": inv, "line": row}, replay_name="profile_%d_%s.json" % (ln, inv))
+    # 3. lazy start under contention: "no operation is scheduled before the profile's start" also holds for the
+    #    callers that arrive while another caller is just starting the profile (TraceLazyStart.tla, shared with C02)
+    lz = os.path.join(d, "lazy.ndjson")
+    ntrials = 600000 if thorough else 150000
+    vlib.run_driver(b, ["schedlazy", "-out", lz, "-trials", str(ntrials)], timeout=1800)
+    tl = vlib.tlc("TraceLazyStart", "TraceLazyStart.cfg", env={"VERIF_TRACE": lz}, cont=True, timeout=1800, heap="8g")
+    if tl.error:
+        raise vlib.MachineryError("TraceLazyStart failed: %s\n%s" % (tl.kind, tl.out[-3000:]))
+    lrows = vlib.read_ndjson(lz)
+    if tl.distinct != len(lrows) + 1:
+        raise vlib.MachineryError("TraceLazyStart visited %d states for %d lines" % (tl.distinct, len(lrows)))
+    seen_l = set()
+    for inv, stt in tl.all_violations:
+        ln = int(stt.get("l", "0"))
+        if ln < 1 or (inv, ln) in seen_l or lrows[ln - 1]["kind"] != "once":
+            continue          # the unlimited trials belong to C02
+        seen_l.add((inv, ln))
+        row = lrows[ln - 1]
+        v.violation("lazystart kind=once inv=%s n=%d" % (inv, row["n"]),
+                    "once(%d) started by its first Next(), %d goroutines released together: %s fails" % (row["n"], row["g"], inv),
+                    replay_obj={"invariant": inv, "lazy": row}, replay_name="lazy_%d_%s.json" % (ln, inv))
     tokens = sum(r_["n"] for r_ in rows)
     distinct = len({(r_["kind"], r_["from_m"], r_["to_m"], r_["step"], r_["times"], tuple(r_["dur"])) for r_ in rows if r_["n"] > 0})
     samples = [{k: rr[k] for k in ("kind", "from_m", "to_m", "step", "times", "dur", "via", "n")} | {"first_ts": rr["ts"][:3]}
@@ -68,6 +89,8 @@ def run(tier, v):
         "evaluations": len(rows), "distinct_nontrivial": distinct,
         "rule": "one trace line per profile drained from the real schedule; distinct = distinct parameter tuples with >= 1 token",
         "tokens_checked": tokens,
+        "lazy_start_trials": ntrials,
+        "concurrent_drains": len([r_ for r_ in rows if r_["via"] == "concurrent"]),
         "trace_spec_states": tr.distinct,
         "design_tlc": "ProfileMathCheck: %d grid profiles, oracle window/count sanity + golden points" % states,
         "exhaustive": False,
@@ -81,6 +104,13 @@ def replay(path, v):
     import json
     obj = json.load(open(path))
     d = vlib.scratch()
+    if "lazy" in obj:
+        p = os.path.join(d, "lazy1.ndjson")
+        vlib.write_ndjson(p, [obj["lazy"]])
+        tl = vlib.tlc("TraceLazyStart", "TraceLazyStart.cfg", env={"VERIF_TRACE": p}, cont=True)
+        for inv, _ in tl.all_violations:
+            v.violation("lazystart kind=once inv=%s n=%d" % (inv, obj["lazy"]["n"]), "recorded batch violates %s" % inv)
+        return None
     trace = os.path.join(d, "one.ndjson")
     vlib.write_ndjson(trace, [obj["line"]])
     tr = vlib.tlc("TraceProfile", "TraceProfile.cfg", env={"VERIF_TRACE": trace, "VERIF_SEED": vlib.seed()}, cont=True)
